@@ -146,8 +146,9 @@ static void* th_main(void* a) {
   for (int i = t->keep; i < t->nblocks; i++) { mi_free(t->out[i]); t->out[i] = NULL; }
   return NULL;
 }
-static const char* wl_names[] = { "small", "large", "huge", "aligned-huge", "threads8", "threads40", "heaps", "realloc", "mixed", "timed", "staggered" };
-#define NWL 11
+static const char* wl_names[] = { "small", "large", "huge", "aligned-huge", "threads8", "threads40", "heaps", "realloc", "mixed", "timed", "staggered", "arenas" };
+#define NWL 12
+#define NWL_FOOT 11   /* (the arenas workload registers new arenas, which stay by design: fault mode only) */
 static int run_workload(int w) {
   switch (w) {
     case 0: /* small / medium churn over several pages */
@@ -224,6 +225,11 @@ static int run_workload(int w) {
       vf_os.clock_ms += d / 2;          /* the first block's delay has passed, the second one's has not */
       mi_collect(false);                /* ordinary activity in between; the forced collect of the caller follows */
       return 0;
+    }
+    case 11: { /* arenas: 32 reservations of 32 MiB (the arena descriptors outgrow the static metadata area: later descriptors are one-page OS allocations), then blocks of three kinds */
+      for (int i = 0; i < 32; i++) { mi_arena_id_t id; int e = mi_reserve_os_memory_ex(32 * MiB, false, false, false, &id); if (e != 0 && !(g_lenient && e == ENOMEM)) { VIOL("reserve-failed", "mi_reserve_os_memory_ex(32 MiB) #%d returned %d", i, e); return -1; } }
+      if (w_alloc(48, 0, 0) || w_alloc(1 * MiB, 0, 1) || w_alloc(17 * MiB, 0, 0)) return -1;
+      return w_free_all();
     }
     case 8: /* mixed */
       if (w_alloc(48, 0, 0) || w_alloc(8 * KiB, 0, 1) || w_alloc(1 * MiB, 0, 0) || w_alloc(17 * MiB, 0, 0) || w_alloc(64 * KiB, 4096, 0) || w_alloc(100 * KiB, 64 * MiB, 0)) return -1;
@@ -306,10 +312,13 @@ static long purge_calls_since(long mark) {
   for (long k = mark; k < vf_os.ncalls && k < VF_MAX_CALLS; k++) { const vf_call_t* c = &vf_os.calls[k]; if (c->kind == VF_C_MADVISE || (c->kind == VF_C_MPROTECT && c->arg == PROT_NONE)) n++; }
   return n;
 }
-enum { U_PAGE = 0, U_SEGMENT = 1, U_ALL = 2, U_MULTI = 3, U_CHURN = 4, U_ARENAS = 5, NUNUSED = 6 };
+enum { U_PAGE = 0, U_SEGMENT = 1, U_ALL = 2, U_MULTI = 3, U_CHURN = 4, U_ARENAS = 5, U_ABANDONED = 6, NUNUSED = 7 };
 enum { A_FREE_OTHER_PAGE = 0, A_ALLOC_PAGE = 1, A_HUGE_ALLOC_FREE = 2, A_COLLECT = 3, A_FASTPATH = 4, NACT = 5 };
-static const char* u_names[] = { "page-in-live-segment", "whole-segment", "everything", "several-pages-of-one-segment", "several-pages-one-of-them-reused-repeatedly", "four-huge-segments-possibly-in-four-arenas" };
+static const char* u_names[] = { "page-in-live-segment", "whole-segment", "everything", "several-pages-of-one-segment", "several-pages-one-of-them-reused-repeatedly", "four-huge-segments-possibly-in-four-arenas", "page-of-an-abandoned-segment-freed-by-another-thread" };
 static const char* a_names[] = { "free-other-page", "alloc-page-in-segment", "alloc+free-17MiB", "collect(false)", "small-fast-path-only" };
+#include <pthread.h>
+static uint8_t* g_ab_blk[2];
+static void* ab_thread(void* a) { (void)a; for (int i = 0; i < 2; i++) { g_ab_blk[i] = (uint8_t*)mi_malloc(1 * MiB); if (g_ab_blk[i]) memset(g_ab_blk[i], 9 + i, 1 * MiB); } return NULL; }
 static void purge_case(long k) {
   int U = (int)(k / NACT), A = (int)(k % NACT);
   long d = mi_option_get(mi_option_purge_delay), mult = mi_option_get(mi_option_arena_purge_mult);
@@ -333,6 +342,7 @@ static void purge_case(long k) {
     for (int i = 0; i < 9; i++) { more[i] = (uint8_t*)mi_malloc(1 * MiB); if (!more[i]) { VIOL("null-result", "set-up"); return; } memset(more[i], 5 + i, MiB);
       if (_mi_ptr_segment(more[i]) != _mi_ptr_segment(pa)) { vf_sh->infra_error = 1; fprintf(stderr, "set-up: pages not in one segment\n"); return; } }
   }
+  if (U == U_ABANDONED) { pthread_t th; g_ab_blk[0] = g_ab_blk[1] = NULL; if (pthread_create(&th, NULL, &ab_thread, NULL) != 0) { vf_sh->infra_error = 1; return; } pthread_join(th, NULL); if (!g_ab_blk[0] || !g_ab_blk[1]) { VIOL("null-result", "set-up"); return; } }
   uint8_t* hus[4] = { NULL, NULL, NULL, NULL };
   if (U == U_ARENAS) for (int i = 0; i < 4; i++) { hus[i] = (uint8_t*)mi_malloc(40 * MiB); if (!hus[i]) { VIOL("null-result", "set-up"); return; } memset(hus[i], 7 + i, 40 * MiB); }
   if (U == U_SEGMENT) { hu = (uint8_t*)mi_malloc(17 * MiB); if (!hu) { VIOL("null-result", "set-up"); return; } memset(hu, 4, 17 * MiB); }
@@ -341,6 +351,7 @@ static void purge_case(long k) {
   /* the event: something becomes unused at T0 */
   if (U == U_PAGE)         { lo = (uintptr_t)pb; hi = lo + 1 * MiB; mi_free(pb); pb = NULL; }
   else if (U == U_SEGMENT) { lo = (uintptr_t)hu; hi = lo + 17 * MiB; mi_free(hu); hu = NULL; }
+  else if (U == U_ABANDONED) { lo = (uintptr_t)g_ab_blk[1]; hi = lo + 1 * MiB; mi_free(g_ab_blk[1]); }   /* the page's owner is gone: its segment is abandoned, the other block of it stays live */
   else if (U == U_ARENAS) { for (int i = 0; i < 4; i++) { mlo[i] = (uintptr_t)hus[i]; mhi[i] = mlo[i] + 40 * MiB; mi_free(hus[i]); } nm = 4; lo = mlo[0]; hi = mhi[0]; }
   else if (U == U_MULTI) {
     uint8_t* f[4] = { pb, more[0], more[3], more[6] };     /* pages #1, #3, #6, #9 of the segment */
@@ -362,6 +373,7 @@ static void purge_case(long k) {
     VF_INC(nontrivial); return;
   }
   if (d == 0) {
+    if (U == U_ABANDONED) mi_collect(false);   /* (nobody owns the page: it is released -- and with delay 0 purged -- when a collect visits the abandoned segment) */
     for (int i = 1; i < nm; i++) { size_t g = returned_bytes_in(mlo[i], mhi[i], g_mark, 1); if (g < need) { VIOL("not-purged-immediately", "purge_delay=0: only %zu of %zu bytes of unused page %d were returned at once", g, span, i + 1); return; } }
     size_t got = returned_bytes_in(lo, hi, g_mark, 1);
     /* with delay 0 the memory is returned as soon as it becomes unused. For "everything" the small pages may be retired
@@ -382,6 +394,7 @@ static void purge_case(long k) {
   /* (2) after the delay has passed, ordinary activity returns it (no forced collect) */
   int64_t T1 = vf_os.clock_ms;
   if (U == U_ALL) { expiry = d * mult; vf_os.clock_ms = T1 + expiry + 1000; T0 = T1; }
+  else if (U == U_ABANDONED) { vf_os.clock_ms = T1 + expiry + 1000; T0 = T1; }   /* (the collect of phase 1 visited the abandoned segment and released the page: the delay runs from there) */
   else vf_os.clock_ms = T0 + expiry + 1000 + churn * (ext > 0 ? ext : 0);
   int expect = 0; uint8_t* pc_addr = NULL;
   switch (A) {
@@ -393,7 +406,7 @@ static void purge_case(long k) {
     case A_HUGE_ALLOC_FREE: { void* t = mi_malloc(40 * MiB); mi_free(t); expect = (U == U_SEGMENT || U == U_ALL); break; }
     /* (a non-forced pass purges at most two arenas and stays armed for the rest, one pass per delay period: three passes,
        a delay period apart, reach four arenas) */
-    case A_COLLECT:         mi_collect(false); if (U == U_ARENAS) { vf_os.clock_ms += expiry + 1; mi_collect(false); vf_os.clock_ms += expiry + 1; mi_collect(false); } expect = (U == U_SEGMENT || U == U_ALL || U == U_ARENAS); break;
+    case A_COLLECT:         mi_collect(false); if (U == U_ABANDONED) expect = 1; if (U == U_ARENAS) { vf_os.clock_ms += expiry + 1; mi_collect(false); vf_os.clock_ms += expiry + 1; mi_collect(false); } expect = (U == U_SEGMENT || U == U_ALL || U == U_ARENAS || U == U_ABANDONED); break;
     case A_FASTPATH:        { void* t = mi_malloc(64); mi_free(t); expect = 0; break; }
   }
   size_t got = returned_bytes_in(lo, hi, g_mark, 1);   /* cumulative since the event; an immediate munmap counts */
@@ -428,8 +441,8 @@ static void purge_case(long k) {
  * ============================================================================================== */
 #define NPLAN 6   /* 0: single failure at k; 1..4: persistent failure from k of mmap / mprotect / madvise / munmap; 5: persistent, all kinds */
 static const char* plan_names[] = { "single", "persist-mmap", "persist-mprotect", "persist-madvise", "persist-munmap", "persist-all" };
-static int g_wl_fault[] = { 0, 1, 2, 3, 4, 6, 7, 8 };
-#define NWLF 8
+static int g_wl_fault[] = { 0, 1, 2, 3, 4, 6, 7, 8, 11 };
+#define NWLF 9
 typedef struct fcase_s { int w; int plan; long k; long k2; } fcase_t;
 static fcase_t* g_fcases; static long g_nfcases;
 static long g_dry_calls[NWL];
@@ -545,7 +558,7 @@ int main(int argc, char** argv) {
   /* dry runs are needed in-process for the fault mode (results land in copy-on-write memory: use shared memory) */
   long* shared_dry = (long*)mmap(NULL, sizeof(long) * NWL, PROT_READ | PROT_WRITE, MAP_SHARED | MAP_ANONYMOUS, -1, 0);
   g_dry_kinds = (uint8_t (*)[512])mmap(NULL, 512 * NWL, PROT_READ | PROT_WRITE, MAP_SHARED | MAP_ANONYMOUS, -1, 0);
-  if (strcmp(g_mode, "footprint") == 0) { ncases = NWL; fn = footprint_case; }
+  if (strcmp(g_mode, "footprint") == 0) { ncases = NWL_FOOT; fn = footprint_case; }
   else if (strcmp(g_mode, "purge") == 0) { ncases = NUNUSED * NACT; fn = purge_case; }
   else if (strcmp(g_mode, "fault") == 0) {
     for (int wi = 0; wi < NWLF; wi++) {
@@ -578,7 +591,7 @@ int main(int argc, char** argv) {
       }
     }
     ncases = g_nfcases; fn = fault_case;
-    vf_sample("OS calls per workload (dry run): small=%ld large=%ld huge=%ld aligned-huge=%ld threads8=%ld heaps=%ld realloc=%ld mixed=%ld", shared_dry[0], shared_dry[1], shared_dry[2], shared_dry[3], shared_dry[4], shared_dry[6], shared_dry[7], shared_dry[8]);
+    vf_sample("OS calls per workload (dry run): small=%ld large=%ld huge=%ld aligned-huge=%ld threads8=%ld heaps=%ld realloc=%ld mixed=%ld arenas=%ld", shared_dry[0], shared_dry[1], shared_dry[2], shared_dry[3], shared_dry[4], shared_dry[6], shared_dry[7], shared_dry[8], shared_dry[11]);
   }
   else { fprintf(stderr, "unknown mode %s\n", g_mode); return 2; }
   if (replay) {
